@@ -78,6 +78,13 @@ Print Assumptions C25_the_passes_keep_every_walk.
 (* the graphs of the chains the stream runs meet the first hypothesis, and a chain with a block marked as handler code meets all *)
 Theorem C25_chain_graphs_have_their_edges : forall spec, edges_ok (chain_graph spec).
 Proof. exact chain_edges_ok. Qed.
+(* ... and every chain the stream runs meets the hypotheses: targets are blocks of the chain other than block 0, or exits (negative
+   numbers); so for every such chain, of any length and shape (cycles among the later blocks included), what obs_struct observes -
+   the graph and entry struct returns, started with the first unused id - has the walks of the chain *)
+Theorem C25_the_passes_keep_every_walk_of_a_chain : forall spec fuel, chain_wf spec -> spec <> [] ->
+  same_walks (chain_graph spec) 0 (fst (struct fuel (chain_graph spec) (Z.of_nat (length spec)) 0)) (snd (struct fuel (chain_graph spec) (Z.of_nat (length spec)) 0)).
+Proof. exact struct_keeps_chain_walks. Qed.
+Print Assumptions C25_the_passes_keep_every_walk_of_a_chain.
 Example C25_the_passes_nonvacuous :
   edges_ok (chain_graph d41_spec) /\ unused_from (chain_graph d41_spec) 3 /\ no_pred (chain_graph d41_spec) 0 /\
   snd (struct 4 (chain_graph d41_spec) 3 0) = 4.
